@@ -133,3 +133,42 @@ Theorem rl_session_end_relogin : forall cfg ef er evs,
   let st := rl_run (rl_init cfg ef er) evs in
   rl_phase_of st = PRunning -> rl_phase_of (rl_step st RSessionEnd) = PLogin.
 Proof. intros cfg ef er evs st H. unfold rl_step. rewrite H. reflexivity. Qed.
+
+(* a reload that arrives while the client is retrying is what the next session registers *)
+Lemma rl_stopped_absorbing : forall evs s, rl_phase_of s = PStopped -> rl_phase_of (rl_run s evs) = PStopped.
+Proof.
+  induction evs as [|e r IH]; intros s H; simpl; auto.
+  unfold rl_run in *. simpl. apply IH. unfold rl_step. rewrite H. exact H.
+Qed.
+
+Lemma rl_fails_keep_cfg : forall fails s,
+  Forall (fun e => e = RLoginFail \/ e = RLoginRefused) fails ->
+  rl_cfg (rl_run s fails) = rl_cfg s.
+Proof.
+  induction fails as [|e r IH]; intros s Hf; simpl; auto.
+  inversion Hf as [|x l He Hr]; subst. unfold rl_run in *. simpl. rewrite IH by exact Hr.
+  unfold rl_step, rl_login_failed. destruct He; subst; destruct (rl_phase_of s); reflexivity.
+Qed.
+
+Lemma rl_run_app : forall a b s, rl_run s (a ++ b) = rl_run (rl_run s a) b.
+Proof. intros. unfold rl_run. apply fold_left_app. Qed.
+
+Theorem rl_reload_while_retrying : forall cfg ef er pre cfgs' fails,
+  Forall (fun e => e = RLoginFail \/ e = RLoginRefused) fails ->
+  let st := rl_run (rl_init cfg ef er) (pre ++ RReload cfgs' :: fails) in
+  rl_phase_of st = PLogin ->
+  exists m, rl_ctl (rl_step st RLoginOk) = Some m /\
+            rl_history (rl_step st RLoginOk) = m :: rl_history st /\
+            forall n c, In (n, c) m <-> rl_lookup n cfgs' = Some c.
+Proof.
+  intros cfg ef er pre cfgs' fails Hf st Hp.
+  assert (Hc : rl_cfg st = cfgs').
+  { unfold st. rewrite rl_run_app. change (RReload cfgs' :: fails) with ([RReload cfgs'] ++ fails).
+    rewrite rl_run_app. rewrite rl_fails_keep_cfg by exact Hf.
+    set (s1 := rl_run (rl_init cfg ef er) pre).
+    destruct (rl_phase_of s1) eqn:E1; unfold rl_run; simpl; unfold rl_step; rewrite E1; try reflexivity.
+    exfalso. unfold st in Hp. rewrite rl_run_app in Hp. fold s1 in Hp.
+    rewrite (rl_stopped_absorbing _ s1 E1) in Hp. discriminate. }
+  unfold rl_step. rewrite Hp. cbn [rl_ctl rl_history]. exists (rl_fresh (rl_cfg st)).
+  split; [reflexivity|]. split; [reflexivity|]. rewrite Hc. intros n c. apply rl_fresh_spec.
+Qed.
